@@ -191,13 +191,12 @@ func runC04(c *Ctx) {
 	c.Check(maxBit >= 8 && bitsRead >= int64(maxBit)+1 && okShape, "R-WIDTH", "x509.parseCertificate", "the key-usage loop reads every bit a KeyUsage constant can set", w.Pos(pc.Pos()), fmt.Sprintf("widest constant uses bit %d, loop reads %d bits from 0", maxBit, bitsRead))
 	// builder writes both octets
 	var kb []string
-	for _, b := range be.Blocks {
-		for _, in := range b.Instrs {
-			if cl, ok := in.(*ssa.Call); ok && strings.HasSuffix(calleeName(&cl.Call), ".reverseBitsInAByte") {
-				kb = append(kb, Expr(cl.Call.Args[0]))
-			}
+	// (in buildExtensions itself or in a helper it calls with the template's key usage)
+	forEachInstrWithHelpers(be, func(in ssa.Instruction) {
+		if cl, ok := in.(*ssa.Call); ok && strings.HasSuffix(calleeName(&cl.Call), ".reverseBitsInAByte") {
+			kb = append(kb, Expr(cl.Call.Args[0]))
 		}
-	}
+	})
 	sort.Strings(kb)
 	c.Check(strings.Join(kb, " ; ") == "byte((template.KeyUsage>>8)) ; byte(template.KeyUsage)", "R-WIDTH", "x509.buildExtensions", "both key-usage octets are encoded", w.Pos(be.Pos()), strings.Join(kb, " ; "))
 
